@@ -83,6 +83,16 @@ if __name__ == "__main__":
     mk("c18-cancel-orphan-assert", R + "retry.py", "        if not found_job:\n", "        assert found_job, \"Cancel called on orphan %s\" % future\n        if not found_job:\n")
     mk("c18-poll-cancel-fn-no-try", R + "poll.py", "        try:\n            return self._cancel_fn(descriptor.result)\n        except Exception:", "        try:\n            return self._cancel_fn(descriptor.result)\n        except ZeroDivisionError:")
     mk("c18-poll-fn-error-not-caught", R + "poll.py", "        except Exception as e:\n            self._log.debug(\"Poll function failed\", exc_info=True)", "        except ZeroDivisionError as e:\n            self._log.debug(\"Poll function failed\", exc_info=True)")
+    # C20
+    mk("c20-retry-cancel-no-dec", R + "retry.py", "                        self._jobs.pop(idx)\n                        metrics.RETRY_QUEUE.labels(executor=self._name).dec()\n", "                        self._jobs.pop(idx)\n")
+    mk("c20-throttle-cancel-no-dec", R + "throttle.py", "                    metrics.THROTTLE_QUEUE.labels(executor=self._name).dec()\n                    self._room_event.set()", "                    self._room_event.set()")
+    mk("c20-retry-double-inc-on-requeue", R + "retry.py", "            metrics.RETRY_DELAY.labels(executor=self._name).inc(sleep_time)\n", "            metrics.RETRY_DELAY.labels(executor=self._name).inc(sleep_time)\n            metrics.RETRY_QUEUE.labels(executor=self._name).inc()\n")
+    mk("c20-record-done-no-dec", R + "metrics/__init__.py", "    inprogress.dec()\n\n    run_time", "    if not f.cancelled():\n        inprogress.dec()\n\n    run_time")
+    mk("c20-map-shutdown-no-dec", R + "map.py", "        if self._shutdown():\n            self._metric_exec_inprogress.dec()\n", "        if self._shutdown():\n")
+    mk("c20-future-error-counts-cancel", R + "metrics/__init__.py", "    if f.cancelled():\n        cancelled.inc()\n    elif f.exception():\n        failed.inc()", "    if f.cancelled():\n        cancelled.inc()\n        failed.inc()\n    elif f.exception():\n        failed.inc()")
+    mk("c20-retry-total-counts-first-attempt", R + "retry.py", "                if job.attempt != 0:\n                    metrics.RETRY_TOTAL", "                if job.attempt >= 0:\n                    metrics.RETRY_TOTAL")
+    mk("c20-poll-error-not-counted", R + "poll.py", "            metrics.POLL_ERROR.labels(executor=self._name).inc()\n", "")
+    mk("c20-cancelled-delegate-job-not-popped", R + "retry.py", "            self._pop_job(found_job)\n            found_job.future._me_delegate_cancelled()", "            found_job.future._me_delegate_cancelled()")
     # C07
     mk("c07-throttle-ge-to-gt", R + "throttle.py", "(executor._running_count.value >= throttle)", "(executor._running_count.value > throttle)")
     mk("c07-incr-after-submit", R + "throttle.py", "            executor._running_count.incr()\n            metrics.THROTTLE_QUEUE", "            metrics.THROTTLE_QUEUE")
